@@ -372,9 +372,17 @@ func c11Run(u *vfUnit) {
 		cfg := vfSrvCfg{Kind: e.kind, Alloc: e.alloc}
 		if e.kind == vfRS {
 			cfg.H = e.store.Handlers(vfHandlerOpt{OpenFile: ei%2 == 0, CmdAll: true, ListAll: true})
+			// every other session of a pair: handlers that work with their own derivation of the request (WithContext)
+			e.store.ViaWithContext = (ei/2)%2 == 1
 			if ei%3 == 1 {
 				// handler objects whose Close reports an error: the handle must die all the same
-				e.store.CloseErr = func(p string) error { return fmt.Errorf("close of %s failed", p) }
+				// (whatever value the error has: the harness's own, interrupted, temporary, stale, end-of-file ...)
+				cerr := vfFaultErr(ei / 3)
+				if (ei/3)%len(vfFaultPool()) == 0 {
+					e.store.CloseErr = func(p string) error { return fmt.Errorf("close of %s failed", p) }
+				} else {
+					e.store.CloseErr = func(p string) error { return cerr }
+				}
 				closeFails = true
 			}
 		}
